@@ -88,6 +88,13 @@ def build(stream, p):
                 dsw.connect_coding_graph(observed_length=k, vertices=mask, threshold=p["t"])
             except ValueError:
                 pass
+            # results handed out earlier belong to the caller: writing into them must not affect later results
+            first = dsw.get_complete_accessor(observed_length=k)
+            first[:] = -1
+            l0 = dsw.obtain_latters(current=v, observed_length=k)
+            l0[:] = [-1] * len(l0)
+            f0 = dsw.obtain_formers(current=v, observed_length=k)
+            f0[:] = [-1] * len(f0)
             lat = dsw.obtain_latters(current=v, observed_length=k)
             fo = dsw.obtain_formers(current=v, observed_length=k)
             comp = dsw.get_complete_accessor(observed_length=k)
